@@ -59,7 +59,7 @@ example : parseUserPrefix [0x40, 0x2B] = ([], [], false) := by rfl
 /-! ### modes.go, value level of the stateful code (phase 3): `CModes` values with their `[]CMode`, pointer receivers that
     are written through (`Apply`, `Perms.set` …: the generated function returns the new pointee) -/
 
-open Girc.Proofs.Trans (asciiModes namesNodup applyOneGo getGo stringGo permsStep)
+open Girc.Proofs.Trans (asciiModes namesNodup applyOneGo permsStep)
 
 theorem tie_NewCModes : ∀ channelModes userPrefixes : Bytes,
     Fn.NewCModes channelModes userPrefixes = .ok (newCModes channelModes userPrefixes) := Proofs.Trans.NewCModes_eq
@@ -92,32 +92,42 @@ example : (Fn.CModes_Apply (some (newCModes [0x62, 0x2C, 0x6B, 0x2C, 0x6C, 0x2C,
     [⟨true, 0x6B, true, [0x78]⟩, ⟨true, 0x69, true, []⟩, ⟨true, 0x6B, true, [0x79]⟩, ⟨false, 0x69, true, []⟩]).map
       (fun r => r.map (·.modes)) = .ok (some [⟨true, 0x6B, true, [0x79]⟩]) := by rfl
 
-/-- `HasMode` / `Get` / `String`, exactly as the Go code computes them: `string(name)` is the UTF-8 encoding of the code
-    point `name` (TWO bytes from 0x80 on) … -/
-theorem tie_CModes_HasMode_go : ∀ (c : CModes) (mode : Bytes),
-    Fn.CModes_HasMode (some c) mode = .ok (c.modes.any (fun m => Go.strOfByte m.name == mode)) :=
-  Proofs.Trans.CModes_HasMode_go
-theorem tie_CModes_Get_go : ∀ (c : CModes) (mode : Bytes), Fn.CModes_Get (some c) mode = .ok (getGo c.modes mode) :=
-  Proofs.Trans.CModes_Get_go
-theorem tie_CModes_String_go : ∀ c : CModes, Fn.CModes_String (some c) = .ok (stringGo c.modes) :=
-  Proofs.Trans.CModes_String_go
-/-- … which are the models `hasMode` / `get` / `toBytes` whenever the stored mode letters are ASCII.  For a stored mode byte
-    ≥ 0x80 the models DISAGREE with the code (see the examples and TRANSLATOR_NOTES §8). -/
-theorem tie_CModes_HasMode : ∀ (c : CModes) (mode : Bytes), asciiModes c.modes →
+/-- `HasMode` / `Get` / `String` equal the models `hasMode` / `get` / `toBytes` for ALL stored mode bytes: `string(name)`
+    of a `byte` is the UTF-8 encoding of the code point `name` (`Go.strOfByte`: ONE byte below 0x80, TWO bytes from 0x80
+    on), in the code and in the models alike (see TRANSLATOR_NOTES §8 for the disagreement the tie found in the earlier,
+    raw-byte models). -/
+theorem tie_CModes_HasMode : ∀ (c : CModes) (mode : Bytes),
     Fn.CModes_HasMode (some c) mode = .ok (c.hasMode mode) := Proofs.Trans.CModes_HasMode_eq
-theorem tie_CModes_Get : ∀ (c : CModes) (mode : Bytes), asciiModes c.modes →
+theorem tie_CModes_Get : ∀ (c : CModes) (mode : Bytes),
     Fn.CModes_Get (some c) mode = .ok (match c.get mode with | some a => (a, true) | none => ([], false)) :=
   Proofs.Trans.CModes_Get_eq
-theorem tie_CModes_String : ∀ c : CModes, asciiModes c.modes → Fn.CModes_String (some c) = .ok c.toBytes :=
+theorem tie_CModes_String : ∀ c : CModes, Fn.CModes_String (some c) = .ok c.toBytes :=
   Proofs.Trans.CModes_String_eq
+/-- On ASCII mode letters (all a server can announce in CHANMODES / PREFIX) the spelling of a letter is the byte itself. -/
+theorem tie_CModes_hasMode_ascii : ∀ (c : CModes) (mode : Bytes), asciiModes c.modes →
+    c.hasMode mode = c.modes.any (fun m => [m.name] = mode) := Proofs.Trans.hasMode_ascii
+theorem tie_CModes_toBytes_ascii : ∀ c : CModes, asciiModes c.modes →
+    c.toBytes = (if c.modes.length > 0 then [0x2B] else []) ++ c.modes.map (·.name) ++
+      c.modes.flatMap (fun m => if m.args.length > 0 then SP :: m.args else []) := Proofs.Trans.toBytes_ascii
 example : Fn.CModes_String (some { newCModes [] [] with modes := [⟨true, 0x6B, true, [0x78]⟩, ⟨true, 0x69, true, []⟩] }) =
     .ok [0x2B, 0x6B, 0x69, 0x20, 0x78] := by rfl
+example : ({ newCModes [] [] with modes := [⟨true, 0x6B, true, [0x78]⟩, ⟨true, 0x69, true, []⟩] } : CModes).toBytes =
+    [0x2B, 0x6B, 0x69, 0x20, 0x78] := by rfl
 example : Fn.CModes_Get (some { newCModes [] [] with modes := [⟨true, 0x6B, true, [0x78]⟩] }) [0x6B] = .ok ([0x78], true) := by rfl
--- a stored mode byte 0xE9: Go's string(byte(0xE9)) is "\xC3\xA9"
+example : ({ newCModes [] [] with modes := [⟨true, 0x6B, true, [0x78]⟩] } : CModes).get [0x6B] = some [0x78] := by rfl
+-- a stored mode byte 0xE9 (reachable: Parse("+\xe9", nil) then Apply on NewCModes("b,k,l,imnpst", "ov")): Go's
+-- string(byte(0xE9)) is "\xC3\xA9"; code and model agree
+example : (newCModes [0x62, 0x2C, 0x6B, 0x2C, 0x6C, 0x2C, 0x69, 0x6D, 0x6E, 0x70, 0x73, 0x74] [0x6F, 0x76]).parse [0x2B, 0xE9] [] =
+    [⟨true, 0xE9, true, []⟩] := by rfl
 example : Fn.CModes_HasMode (some { newCModes [] [] with modes := [⟨true, 0xE9, true, []⟩] }) [0xE9] = .ok false := by rfl
-example : ({ newCModes [] [] with modes := [⟨true, 0xE9, true, []⟩] } : CModes).hasMode [0xE9] = true := by rfl
+example : ({ newCModes [] [] with modes := [⟨true, 0xE9, true, []⟩] } : CModes).hasMode [0xE9] = false := by rfl
+example : Fn.CModes_HasMode (some { newCModes [] [] with modes := [⟨true, 0xE9, true, []⟩] }) [0xC3, 0xA9] = .ok true := by rfl
+example : ({ newCModes [] [] with modes := [⟨true, 0xE9, true, []⟩] } : CModes).hasMode [0xC3, 0xA9] = true := by rfl
+example : Fn.CModes_Get (some { newCModes [] [] with modes := [⟨true, 0xE9, true, [0x78]⟩] }) [0xC3, 0xA9] = .ok ([0x78], true) := by rfl
+example : ({ newCModes [] [] with modes := [⟨true, 0xE9, true, [0x78]⟩] } : CModes).get [0xC3, 0xA9] = some [0x78] := by rfl
+example : ({ newCModes [] [] with modes := [⟨true, 0xE9, true, [0x78]⟩] } : CModes).get [0xE9] = none := by rfl
 example : Fn.CModes_String (some { newCModes [] [] with modes := [⟨true, 0xE9, true, []⟩] }) = .ok [0x2B, 0xC3, 0xA9] := by rfl
-example : ({ newCModes [] [] with modes := [⟨true, 0xE9, true, []⟩] } : CModes).toBytes = [0x2B, 0xE9] := by rfl
+example : ({ newCModes [] [] with modes := [⟨true, 0xE9, true, []⟩] } : CModes).toBytes = [0x2B, 0xC3, 0xA9] := by rfl
 
 theorem tie_CModes_Copy : ∀ c : CModes, Fn.CModes_Copy (some c) = .ok c := Proofs.Trans.CModes_Copy_eq
 example : Fn.CModes_Copy (some { newCModes [0x62] [] with modes := [⟨true, 0x6B, true, [0x78]⟩] }) =
